@@ -324,7 +324,20 @@ func c05ShapeText(t *term.Term) string {
 const c05GoalSetup = ":- dynamic(dyn/1).\ndyn(1).\ndyn(2).\nstat(1).\nstat(2).\nc05p(X) :- stat(X).\n"
 const c05GoalInput = "foo(X, Y). 'b c'. [1,2|T]. \"str\". "
 
-var c05GoalFiles = map[string]string{"c05_in.txt": "hello(world). foo. \"s\". 0'a. [X|Y].\n"}
+var c05GoalFiles = map[string]string{"c05_in.txt": "hello(world). foo. \"s\". 0'a. [X|Y].\n",
+	// files that load themselves or each other, and files that are not Prolog text
+	"c05_self.pl":  ":- ensure_loaded(c05_self).\nc05_self_loaded.\n",
+	"c05_self2.pl": ":- consult(c05_self2).\nc05_self2_loaded.\n",
+	"c05_self3.pl": "c05_self3_before.\n:- [c05_self3].\nc05_self3_after.\n",
+	"c05_self4.pl": ":- initialization(consult(c05_self4)).\nc05_self4_loaded.\n",
+	"c05_a.pl":     ":- ensure_loaded(c05_b).\nc05_a_loaded.\n",
+	"c05_b.pl":     ":- ensure_loaded(c05_c).\nc05_b_loaded.\n",
+	"c05_c.pl":     ":- consult([c05_a, c05_b]).\nc05_c_loaded.\n",
+	"c05_bad.pl":   "c05_bad_before.\nfoo(. bar\n",
+	"c05_bad2.pl":  "\xff\xfe(",
+	"c05_bad3.pl":  ":- foo(.\n",
+	"c05_bad4.pl":  "c05_bad4 :- \"unterminated\n",
+}
 
 // c05GoalItem builds the case for pred(shapes…).
 func c05GoalItem(family, name string, ids []string, via string, quick bool) *Item {
@@ -549,6 +562,26 @@ func (c *c05) genGoals(cx *Ctx) []*Item {
 		_ = decodeMeta(it, &m)
 		i := strings.LastIndexByte(m.Pred, '/')
 		items = append(items, c05GoalItem("goal-matrix", m.Pred[:i], m.Shapes, "call", !cx.Thorough()))
+	}
+	// ... and inside catch/3: every goal of the predicates that take file names or streams, a sample of the rest
+	rk := cx.Rng("c05/matrix/catch")
+	hostPreds := map[string]bool{"open": true, "consult": true, "close": true, "set_stream_position": true, "set_input": true, "set_output": true,
+		"flush_output": true, "stream_property": true, "read_term": true, "write_term": true, "put_char": true, "put_byte": true, "get_char": true,
+		"get_byte": true, "peek_char": true, "peek_byte": true, "nl": true}
+	for _, it := range items {
+		var m c05Meta
+		_ = decodeMeta(it, &m)
+		i := strings.LastIndexByte(m.Pred, '/')
+		if i < 0 || len(it.Cases) == 0 {
+			continue
+		}
+		var gp c05GoalP
+		if json.Unmarshal(it.Cases[0].P, &gp) != nil || gp.Via != "direct" {
+			continue
+		}
+		if hostPreds[m.Pred[:i]] && (cx.Thorough() || rk.Intn(4) == 0) || rk.Intn(20) == 0 {
+			items = append(items, c05GoalItem("goal-matrix", m.Pred[:i], m.Shapes, "catch", !cx.Thorough()))
+		}
 	}
 	cx.AddExtra("shapes", int64(len(c05ShapeList)))
 	items = append(items, c.genArith(cx)...)
@@ -852,6 +885,14 @@ var c05Corner = []string{
 	"set_prolog_flag(bounded, false)", "set_prolog_flag(foo, bar)", "set_prolog_flag(_, a)", "set_prolog_flag(1, a)", "set_prolog_flag(double_quotes, foo)", "set_prolog_flag(double_quotes, 1)", "set_prolog_flag(unknown, _)", "set_prolog_flag(unknown, fail), nonexistent_c05", "set_prolog_flag(unknown, warning), nonexistent_c05(1)",
 	"set_prolog_flag(double_quotes, atom), read(X), read(Y), read(Z), read(W)", "set_prolog_flag(double_quotes, codes), read(X), read(Y), read(Z), read(W)", "set_prolog_flag(debug, on)", "set_prolog_flag(debug, 1)", "set_prolog_flag(max_arity, 1)", "set_prolog_flag(f(x), on)", "set_prolog_flag(unknown, f(x))",
 	"current_prolog_flag(foo, X)", "current_prolog_flag(1, X)", "current_prolog_flag(F, V)", "current_prolog_flag(max_integer, a)", "current_prolog_flag(f(x), V)", "current_prolog_flag(bounded, true)", "current_prolog_flag(max_arity, X)", "current_prolog_flag(_, _)",
+	// load graphs with cycles, loaded files that are not Prolog text, host errors under catch/3, findall/3, \\+
+	"consult(c05_self), c05_self_loaded", "consult(c05_self2)", "consult(c05_self3), c05_self3_after", "consult(c05_self4)", "consult(c05_a), c05_a_loaded, c05_b_loaded, c05_c_loaded", "consult([c05_b, c05_a, c05_c])",
+	"consult([c05_self, c05_self])", "[c05_c]", "catch(consult(c05_a), E, true)", "findall(x, consult(c05_b), L)", "\\+ consult(c05_c)",
+	"consult(c05_bad)", "consult(c05_bad2)", "consult(c05_bad3)", "consult(c05_bad4)", "catch(consult(c05_bad), E, true)", "catch(consult(c05_bad2), _, true)", "catch(consult(c05_bad3), E, (write(E), nl))", "catch(consult(c05_bad4), error(E, _), true)",
+	"findall(x, consult(c05_bad), L)", "\\+ consult(c05_bad)", "\\+ \\+ consult(c05_bad2)", "catch(findall(x, consult(c05_bad), L), E, true)", "catch(catch(consult(c05_bad), error(type_error(_, _), _), true), E, true)", "catch(consult([c05_self, c05_bad, c05_a]), E, true)",
+	"catch(open('\\x0\\', read, S), E, true)", "catch(open('\\x0\\', write, S), _, true)", "catch(open('c05_bad.pl/x', read, S), E, true)", "catch(open('c05_bad.pl/x', write, S), E, true)", "catch(open('.', write, S), E, true)", "catch(open('/', append, S), E, true)",
+	"findall(S, open('\\x0\\', read, S), L)", "\\+ open('c05_bad.pl/x', read, _)", "catch(consult('\\x0\\'), E, true)", "catch(consult('c05_bad.pl/x'), E, true)", "catch(consult('.'), E, true)", "catch((open('c05_in.txt', read, S), close(S), close(S)), E, true)",
+	"catch((open('c05_in.txt', read, S), close(S), get_char(S, C)), E, true)", "catch((open('c05_w.txt', write, S), close(S), put_char(S, a)), E, true)", "catch((open('c05_in.txt', read, S, [reposition(true)]), stream_property(S, position(P)), close(S), set_stream_position(S, P)), E, true)",
 	// consult, grammars
 	"consult(nofile)", "consult([a|_])", "consult([a|b])", "consult(_)", "consult(1)", "consult([])", "consult(f(a))", "[nofile]", "[nofile|_]", "consult('c05_in.txt')", "consult(['c05_in.txt', 'c05_in.txt'])", "consult('.')", "consult('/')", "consult('')", "consult([_])", "consult(\"abc\")",
 	"expand_term((a --> b), X)", "expand_term((a --> 1), X)", "expand_term((a, b --> c), X)", "expand_term((1 --> a), X)", "expand_term((X --> a), Y)", "expand_term((a --> X), Y)", "expand_term((a --> [b|c]), X)", "expand_term((a --> \"str\", \\+ b, {c}, !, call(d, e)), X)", "expand_term((a --> b | c), X)",
